@@ -158,8 +158,9 @@ func reachesInterface(typ reflect.Type, seen map[reflect.Type]bool) bool {
 }
 
 type visitKey struct {
-	addr uintptr
-	typ  reflect.Type
+	addr   uintptr
+	typ    reflect.Type
+	length int // of a slice: s[:1] and s share their address
 }
 
 // firstVisit record the address of a struct, slice or map value and report whether it is new,
@@ -178,7 +179,10 @@ func firstVisit(v reflect.Value, visited map[visitKey]bool) bool {
 		return true
 	}
 	// a struct and its first field share their address: the type tells them apart
-	key := visitKey{addr, v.Type()}
+	key := visitKey{addr: addr, typ: v.Type()}
+	if v.Kind() == reflect.Slice {
+		key.length = v.Len()
+	}
 	if visited[key] {
 		return false
 	}
